@@ -354,3 +354,508 @@ Proof.
     assert (Ht : nonempty_simple r = true) by (apply nonempty_simple_correct; [assumption | now exists w]).
     congruence.
 Qed.
+
+(* the restriction to real byte strings cannot be dropped: cex_S matches [256] but
+   `nonempty cex_S = false` *)
+Lemma nonempty_complete_needs_bytes_ok :
+  ~ (forall r w, re_lang r w -> nonempty r = true /\ is_empty_syn r = false).
+Proof.
+  intros H. destruct (H cex_S [256]) as [Hn _].
+  - intros Hl. apply (re_lang_bytes_ok (Star any_byte)) in Hl; [|reflexivity].
+    inversion Hl as [|x l Hx _]; subst. discriminate Hx.
+  - vm_compute in Hn. discriminate.
+Qed.
+
+(* a positive answer always has a real byte string as witness *)
+Lemma nonempty_fuel_true_ok : forall fuel r,
+  nonempty_fuel fuel r = Some true -> exists w, bytes_ok w /\ re_lang r w.
+Proof.
+  intros fuel r. unfold nonempty_fuel. destruct (has_and_not r) eqn:E; intros H.
+  - destruct (nonempty_search_true _ _ _ _ (representatives_lt _) H)
+      as (r' & w & [<-|[]] & Hok & Hl).
+    now exists w.
+  - injection H as H. apply nonempty_simple_correct in H as (w & Hw); [|assumption].
+    exists w. split; [now apply (re_lang_bytes_ok r) | assumption].
+Qed.
+
+Lemma lang_not_empty_syn : forall r w, re_lang r w -> is_empty_syn r = false.
+Proof. intros r w H. destruct r; try reflexivity. destruct H. Qed.
+
+(* The only gap between `nonempty` and real emptiness is fuel exhaustion (answer
+   `None`, treated as "non-empty").  [fuel_stable b]: an expression the search
+   PROVED empty within the fuel has a b-derivative on which the search also
+   terminates within the fuel.  (Informally true: the derivative's search graph is
+   a sub-graph explored with a sub-list of the representatives, so it needs fewer
+   steps; not proved here, hence an explicit hypothesis.) *)
+Definition fuel_stable (b : byte) : Prop :=
+  forall r, nonempty_fuel default_fuel r = Some false ->
+            nonempty_fuel default_fuel (deriv r b) <> None.
+
+Lemma nonempty_parent : forall r b,
+  b < 256 -> fuel_stable b -> nonempty (deriv r b) = true -> nonempty r = true.
+Proof.
+  intros r b Hb Hst Hd. destruct (nonempty r) eqn:E; [reflexivity|]. exfalso.
+  assert (Hno : forall w, bytes_ok w -> ~ re_lang r w).
+  { intros w Hok Hl. rewrite (nonempty_complete r w Hok Hl) in E. discriminate. }
+  unfold nonempty in E, Hd.
+  destruct (nonempty_fuel default_fuel r) as [[|]|] eqn:Ef; try discriminate.
+  destruct (nonempty_fuel default_fuel (deriv r b)) as [[|]|] eqn:Ed.
+  - apply nonempty_fuel_true_ok in Ed as (w & Hok & Hl).
+    apply (Hno (b :: w)); [now constructor | now apply deriv_correct].
+  - discriminate.
+  - exact (Hst r Ef Ed).
+Qed.
+
+(* And/Not-free expressions stay And/Not-free under derivation *)
+Ltac han_tac := cbn [has_and_not] in *; repeat rewrite orb_false_iff in *; intuition (auto; discriminate).
+
+Lemma han_mk_cat : forall a b,
+  has_and_not a = false -> has_and_not b = false -> has_and_not (mk_cat a b) = false.
+Proof.
+  intros a b Ha Hb. unfold mk_cat.
+  destruct (is_empty_syn a || is_empty_syn b); [reflexivity|].
+  destruct (is_eps_syn a); [assumption|].
+  destruct (is_eps_syn b); [assumption|].
+  destruct a; han_tac.
+Qed.
+
+Lemma han_alt_insert_all : forall a b,
+  has_and_not a = false -> has_and_not b = false -> has_and_not (alt_insert_all a b) = false.
+Proof.
+  induction a as [| |t|a1 IH1 a2 IH2|a1 IH1 a2 IH2|a1 IH1 a2 IH2|a1 IH1|a1 IH1 lo hi];
+    intros b Ha Hb; cbn [alt_insert_all];
+    match goal with |- context [alt_mem ?x ?y] => destruct (alt_mem x y) end; han_tac.
+Qed.
+
+Lemma han_mk_alt : forall a b,
+  has_and_not a = false -> has_and_not b = false -> has_and_not (mk_alt a b) = false.
+Proof.
+  intros a b Ha Hb. unfold mk_alt.
+  destruct (is_empty_syn a); [assumption|].
+  destruct (is_empty_syn b); [assumption|].
+  destruct (is_all_syn a) eqn:Ea; [apply is_all_syn_true in Ea; subst a; discriminate|].
+  destruct (is_all_syn b) eqn:Eb; [apply is_all_syn_true in Eb; subst b; discriminate|].
+  cbn [orb].
+  destruct a; try (apply han_alt_insert_all; assumption).
+  destruct b; try (apply han_alt_insert_all; assumption).
+  reflexivity.
+Qed.
+
+Lemma han_mk_rep : forall a lo hi, has_and_not a = false -> has_and_not (mk_rep a lo hi) = false.
+Proof.
+  intros a lo hi Ha. unfold mk_rep. destruct hi as [h|].
+  - destruct (h <? lo); [reflexivity|]. destruct (h =? 0); [reflexivity|].
+    destruct (is_empty_syn a); [destruct (lo =? 0); reflexivity|].
+    destruct (is_eps_syn a); [reflexivity|].
+    destruct ((lo =? 1) && (h =? 1)); assumption.
+  - destruct (is_empty_syn a); [destruct (lo =? 0); reflexivity|].
+    destruct (is_eps_syn a); [reflexivity|]. assumption.
+Qed.
+
+Lemma han_deriv : forall r c, has_and_not r = false -> has_and_not (deriv r c) = false.
+Proof.
+  induction r as [| |t|a IHa b IHb|a IHa b IHb|a IHa b IHb|a IHa|a IHa lo hi];
+    intros c H; cbn [deriv]; cbn [has_and_not] in H; try discriminate.
+  - reflexivity.
+  - reflexivity.
+  - destruct (bset_mem t c && (c <? 256)); reflexivity.
+  - apply orb_false_iff in H as [H1 H2].
+    assert (Hd : has_and_not (mk_cat (deriv a c) b) = false) by (apply han_mk_cat; auto).
+    destruct (nullable a); [apply han_mk_alt; auto | assumption].
+  - apply orb_false_iff in H as [H1 H2]. apply han_mk_alt; auto.
+  - assert (Hd : has_and_not (mk_cat (deriv a c) (mk_rep a (lo - 1) (pred_opt hi))) = false).
+    { apply han_mk_cat; [auto | now apply han_mk_rep]. }
+    destruct hi as [[|p]|]; [reflexivity | assumption | assumption].
+Qed.
+
+Lemma han_deriv_word : forall u r, has_and_not r = false -> has_and_not (deriv_word r u) = false.
+Proof.
+  induction u as [|c u IH]; intros r H; cbn [deriv_word]; [assumption|].
+  apply IH. now apply han_deriv.
+Qed.
+
+Lemma nonempty_parent_simple : forall r b,
+  b < 256 -> has_and_not r = false -> nonempty (deriv r b) = true -> nonempty r = true.
+Proof.
+  intros r b Hb Hr Hd. pose proof (han_deriv r b Hr) as Hdr.
+  unfold nonempty, nonempty_fuel in *. rewrite Hr. rewrite Hdr in Hd.
+  apply nonempty_simple_correct in Hd as (w & Hw); [|assumption].
+  apply nonempty_simple_correct; [assumption|]. exists (b :: w). now apply deriv_correct.
+Qed.
+
+(* ------------------------------------------------------------------ *)
+(* the live partial matches                                             *)
+(* ------------------------------------------------------------------ *)
+
+(* what partials_ok says about one entry *)
+Definition entry_ok (S : regex) (seg : bytes) (r : regex) (n : nat) : Prop :=
+  (n <= length seg)%nat /\ (0 < n)%nat /\ r = deriv_word S (skipn (length seg - n) seg) /\
+  is_empty_syn r = false /\ nonempty r = true.
+
+(* Weaker, fuel-independent invariant: every entry is as described by partials_ok
+   (forward direction), and every suffix whose residual still matches some real byte
+   string is present.  This is what soundness and completeness of `completed` need,
+   and it is preserved by every real byte without any side condition. *)
+Definition partials_live (S : regex) (seg : bytes) (ps : partials) : Prop :=
+  (forall r n, In (r, n) ps -> entry_ok S seg r n) /\
+  (forall n, (n <= length seg)%nat -> (0 < n)%nat ->
+     (exists w, bytes_ok w /\ re_lang (deriv_word S (skipn (length seg - n) seg)) w) ->
+     In (deriv_word S (skipn (length seg - n) seg), n) ps).
+
+Lemma partials_ok_live : forall S seg ps, partials_ok S seg ps -> partials_live S seg ps.
+Proof.
+  intros S seg ps H. split.
+  - intros r n Hin. exact (proj1 (H r n) Hin).
+  - intros n Hle Hpos (w & Hok & Hl). apply H. repeat split; try assumption.
+    + exact (lang_not_empty_syn _ _ Hl).
+    + exact (nonempty_complete _ _ Hok Hl).
+Qed.
+
+Lemma partials_ok_nil : forall S, partials_ok S [] [].
+Proof.
+  intros S r n. split; [intros []|]. cbn [length]. intros (H1 & H2 & _). lia.
+Qed.
+
+Lemma partials_live_nil : forall S, partials_live S [] [].
+Proof. intros S. apply partials_ok_live, partials_ok_nil. Qed.
+
+Lemma step_fun_some : forall (b : byte) (r : regex) (n : nat) r' n',
+  (let d := deriv r b in
+   if is_empty_syn d then None else if nonempty d then Some (d, Datatypes.S n) else None)
+  = Some (r', n') <->
+  (r' = deriv r b /\ n' = Datatypes.S n /\ is_empty_syn r' = false /\ nonempty r' = true).
+Proof.
+  intros b r n r' n'. cbv zeta. split.
+  - destruct (is_empty_syn (deriv r b)) eqn:He; [discriminate|].
+    destruct (nonempty (deriv r b)) eqn:Hn; [|discriminate].
+    intros H. injection H as <- <-. auto.
+  - intros (-> & -> & He & Hn). rewrite He, Hn. reflexivity.
+Qed.
+
+Lemma in_step_partials : forall S ps b r' n',
+  In (r', n') (step_partials S ps b) <->
+  exists r n, In (r, n) ((S, 0%nat) :: ps) /\ r' = deriv r b /\ n' = Datatypes.S n /\
+              is_empty_syn r' = false /\ nonempty r' = true.
+Proof.
+  intros S ps b r' n'. unfold step_partials. rewrite in_optmap. split.
+  - intros ([r n] & Hin & Hf). apply step_fun_some in Hf. now exists r, n.
+  - intros (r & n & Hin & Hf). exists (r, n). split; [assumption|]. now apply step_fun_some.
+Qed.
+
+Lemma skipn_snoc_0 : forall (seg : bytes) b,
+  skipn (length (seg ++ [b]) - 1) (seg ++ [b]) = [b].
+Proof.
+  intros seg b. rewrite (skipn_snoc seg b 0) by lia. rewrite Nat.sub_0_r, skipn_all. reflexivity.
+Qed.
+
+(* forward direction: every entry after the step is a described one *)
+Lemma step_partials_forward : forall S seg ps b,
+  (forall r n, In (r, n) ps -> entry_ok S seg r n) ->
+  forall r' n', In (r', n') (step_partials S ps b) -> entry_ok S (seg ++ [b]) r' n'.
+Proof.
+  intros S seg ps b H r' n' Hin.
+  apply in_step_partials in Hin as (r & n & Hin & -> & -> & He & Hn).
+  unfold entry_ok. rewrite app_length. cbn [length].
+  destruct Hin as [Heq|Hin].
+  - injection Heq as <- <-. split; [lia|]. split; [lia|]. split; [|auto].
+    replace (length seg + 1)%nat with (length (seg ++ [b])) by (rewrite app_length; reflexivity).
+    rewrite skipn_snoc_0. reflexivity.
+  - destruct (H r n Hin) as (Hle & Hpos & Hr & _ & _).
+    split; [lia|]. split; [lia|]. split; [|auto].
+    replace (length seg + 1)%nat with (length (seg ++ [b])) by (rewrite app_length; reflexivity).
+    rewrite skipn_snoc by assumption. rewrite deriv_word_snoc, <- Hr. reflexivity.
+Qed.
+
+(* backward direction, given that residuals passing the emptiness test have parents
+   passing it *)
+Lemma step_partials_ok_gen : forall S seg ps b,
+  (forall u, nonempty (deriv (deriv_word S u) b) = true -> nonempty (deriv_word S u) = true) ->
+  partials_ok S seg ps -> partials_ok S (seg ++ [b]) (step_partials S ps b).
+Proof.
+  intros S seg ps b Hpar H r' n'. split.
+  - apply (step_partials_forward S seg ps b). intros r n Hin. exact (proj1 (H r n) Hin).
+  - intros (Hle & Hpos & Hr & He & Hn).
+    destruct n' as [|n]; [lia|]. rewrite app_length in Hle. cbn [length] in Hle.
+    assert (Hn' : (n <= length seg)%nat) by lia.
+    rewrite skipn_snoc, deriv_word_snoc in Hr by assumption.
+    apply in_step_partials.
+    exists (deriv_word S (skipn (length seg - n) seg)), n.
+    split; [|auto].
+    destruct n as [|n].
+    + left. rewrite Nat.sub_0_r, skipn_all. reflexivity.
+    + right. apply H. split; [assumption|]. split; [lia|]. split; [reflexivity|].
+      subst r'. split.
+      * destruct (deriv_word S (skipn (length seg - Datatypes.S n) seg)); try reflexivity.
+        cbn in He. discriminate.
+      * exact (Hpar _ Hn).
+Qed.
+
+(* ORIGINAL STATEMENT (false, see step_partials_ok_original_false above):
+   Lemma step_partials_ok : forall S seg ps b,
+     partials_ok S seg ps -> partials_ok S (seg ++ [b]) (step_partials S ps b).
+   CHANGE: two hypotheses added: `b < 256` (b is a real byte; the counterexample uses
+   b = 256) and `fuel_stable b` (the fuel-bounded emptiness test does not run out of
+   fuel on the b-derivative of an expression it proved empty).  The second one is
+   needed only because partials_ok is an `iff` mentioning `nonempty`: the backward
+   direction requires that a residual passing the tests now had a parent passing
+   them, i.e. `nonempty (deriv r b) = true -> nonempty r = true`; everything except
+   the fuel-exhaustion case of that implication is proved above (nonempty_parent).
+   For And/Not-free S (e.g. any alternation of stop strings) no fuel is involved and
+   step_partials_ok_simple below needs only `b < 256`; so does the fuel-independent
+   invariant partials_live (step_partials_live), for every S. *)
+(*FIXED*) (* one byte keeps the description of the live partial matches *)
+Lemma step_partials_ok : forall S seg ps b,
+  b < 256 -> fuel_stable b ->
+  partials_ok S seg ps -> partials_ok S (seg ++ [b]) (step_partials S ps b).
+Proof.
+  intros S seg ps b Hb Hst. apply step_partials_ok_gen.
+  intros u. now apply nonempty_parent.
+Qed.
+
+(* And/Not-free stop expressions: emptiness is decided exactly, no fuel *)
+Lemma step_partials_ok_simple : forall S seg ps b,
+  has_and_not S = false -> b < 256 ->
+  partials_ok S seg ps -> partials_ok S (seg ++ [b]) (step_partials S ps b).
+Proof.
+  intros S seg ps b HS Hb. apply step_partials_ok_gen.
+  intros u. apply nonempty_parent_simple; [assumption | now apply han_deriv_word].
+Qed.
+
+(* the same for the fuel-independent invariant: no side condition except b < 256 *)
+Lemma step_partials_live : forall S seg ps b,
+  b < 256 -> partials_live S seg ps -> partials_live S (seg ++ [b]) (step_partials S ps b).
+Proof.
+  intros S seg ps b Hb [Hf Hbk]. split.
+  - now apply step_partials_forward.
+  - intros n' Hle Hpos (w & Hok & Hl).
+    destruct n' as [|n]; [lia|]. rewrite app_length in Hle. cbn [length] in Hle.
+    assert (Hn' : (n <= length seg)%nat) by lia.
+    rewrite skipn_snoc, deriv_word_snoc in * by assumption.
+    apply in_step_partials.
+    exists (deriv_word S (skipn (length seg - n) seg)), n.
+    split; [|split; [reflexivity|split; [reflexivity|split]]].
+    + destruct n as [|n].
+      * left. rewrite Nat.sub_0_r, skipn_all. reflexivity.
+      * right. apply Hbk; [assumption | lia |].
+        exists (b :: w). split; [now constructor | now apply deriv_correct].
+    + exact (lang_not_empty_syn _ _ Hl).
+    + exact (nonempty_complete _ _ Hok Hl).
+Qed.
+
+Lemma completed_some : forall ps n,
+  completed ps = Some n -> exists r, In (r, n) ps /\ nullable r = true.
+Proof.
+  intros ps n. unfold completed.
+  destruct (find (fun '(r, _) => nullable r) ps) as [[r m]|] eqn:E; [|discriminate].
+  intros H. injection H as ->. apply find_some in E. now exists r.
+Qed.
+
+Lemma completed_none : forall ps r n,
+  completed ps = None -> In (r, n) ps -> nullable r = false.
+Proof.
+  intros ps r n. unfold completed.
+  destruct (find (fun '(r, _) => nullable r) ps) as [[r0 m]|] eqn:E; [discriminate|].
+  intros _ Hin. exact (find_none _ _ E (r, n) Hin).
+Qed.
+
+Lemma completed_sound_live : forall S seg ps n,
+  bytes_ok seg -> partials_live S seg ps -> completed ps = Some n ->
+  ends_with_match S seg n /\ (0 < n)%nat.
+Proof.
+  intros S seg ps n Hok [Hf _] Hc.
+  apply completed_some in Hc as (r & Hin & Hnull).
+  destruct (Hf r n Hin) as (Hle & Hpos & Hr & _ & _).
+  split; [|assumption]. split; [assumption|].
+  apply nullable_correct in Hnull. subst r.
+  apply deriv_word_correct in Hnull; [|now apply skipn_bytes_ok].
+  now rewrite app_nil_r in Hnull.
+Qed.
+
+Lemma completed_complete_live : forall S seg ps n,
+  bytes_ok seg -> partials_live S seg ps -> ends_with_match S seg n -> (0 < n)%nat ->
+  exists m, completed ps = Some m.
+Proof.
+  intros S seg ps n Hok [_ Hbk] [Hle Hl] Hpos.
+  assert (Hnull : re_lang (deriv_word S (skipn (length seg - n) seg)) []).
+  { apply deriv_word_correct; [now apply skipn_bytes_ok | now rewrite app_nil_r]. }
+  assert (Hin : In (deriv_word S (skipn (length seg - n) seg), n) ps).
+  { apply Hbk; try assumption. exists []. split; [constructor | assumption]. }
+  destruct (completed ps) as [m|] eqn:E; [now exists m|].
+  apply nullable_correct in Hnull. rewrite (completed_none _ _ _ E Hin) in Hnull. discriminate.
+Qed.
+
+(*FIXED*) (* a completed match reported after seg really is a match of S ending at the end of seg *)
+Lemma completed_sound : forall S seg ps n,
+  bytes_ok seg -> partials_ok S seg ps -> completed ps = Some n ->
+  ends_with_match S seg n /\ (0 < n)%nat.
+Proof.
+  intros S seg ps n Hok H. apply completed_sound_live; [assumption | now apply partials_ok_live].
+Qed.
+
+(*FIXED*) (* and no completion is missed: if some non-empty suffix of seg matches S, one is reported *)
+Lemma completed_complete : forall S seg ps n,
+  bytes_ok seg -> partials_ok S seg ps -> ends_with_match S seg n -> (0 < n)%nat ->
+  exists m, completed ps = Some m.
+Proof.
+  intros S seg ps n Hok H. apply completed_complete_live; [assumption | now apply partials_ok_live].
+Qed.
+
+(* ------------------------------------------------------------------ *)
+(* the controller                                                       *)
+(* ------------------------------------------------------------------ *)
+
+Lemma sc_commit_stopped : forall tr stop_tokens S st t,
+  sc_stopped st = true -> sc_commit tr stop_tokens S st t = ([], st).
+Proof. intros tr stop_tokens S st t H. unfold sc_commit. rewrite H. reflexivity. Qed.
+
+(*FIXED*) (* nothing is returned once stopped *)
+Theorem silent_after_stop : forall tr stop_tokens S st ts,
+  sc_stopped st = true -> Forall (fun o => o = []) (sc_run tr stop_tokens S st ts).
+Proof.
+  intros tr stop_tokens S st ts H. induction ts as [|t ts IH]; cbn [sc_run].
+  - constructor.
+  - rewrite (sc_commit_stopped _ _ _ _ _ H). constructor; [reflexivity | exact IH].
+Qed.
+
+(*FIXED*) (* once stopped, always stopped *)
+Theorem stopped_is_sticky : forall tr stop_tokens S st t,
+  sc_stopped st = true -> sc_stopped (snd (sc_commit tr stop_tokens S st t)) = true.
+Proof.
+  intros tr stop_tokens S st t H. rewrite (sc_commit_stopped _ _ _ _ _ H). exact H.
+Qed.
+
+Lemma fold_stopped : forall tr stop_tokens S ts st,
+  sc_stopped st = true ->
+  sc_stopped (fold_left (fun s t => snd (sc_commit tr stop_tokens S s t)) ts st) = true.
+Proof.
+  intros tr stop_tokens S. induction ts as [|t ts IH]; intros st H; cbn [fold_left].
+  - exact H.
+  - apply IH. now apply stopped_is_sticky.
+Qed.
+
+(* feeding without reaching a stop only appends *)
+Lemma feed_no_stop : forall S w ps buf out ps',
+  feed S ps buf w = (out, ps', false) -> out = buf ++ w.
+Proof.
+  intros S. induction w as [|b w IH]; intros ps buf out ps' H; cbn [feed] in H.
+  - injection H as <- _. now rewrite app_nil_r.
+  - cbv zeta in H. destruct (completed (step_partials S ps b)); [discriminate|].
+    apply IH in H. rewrite H, <- app_assoc. reflexivity.
+Qed.
+
+(* one token: what is returned plus what is held back is the old pending text plus
+   the text of the token *)
+Lemma sc_commit_text : forall tr stop_tokens S st t o st',
+  sc_stopped st = false -> sc_commit tr stop_tokens S st t = (o, st') ->
+  sc_stopped st' = false ->
+  o ++ sc_pending st' = sc_pending st ++ tok_text tr t.
+Proof.
+  intros tr stop_tokens S st t o st' Hst Hc Hst'.
+  unfold sc_commit in Hc. rewrite Hst in Hc. unfold tok_text.
+  destruct (existsb (N.eqb t) stop_tokens).
+  { injection Hc as <- <-. discriminate Hst'. }
+  destruct (token tr t) as [|x w'].
+  { injection Hc as <- <-. cbn [sc_pending]. now rewrite app_nil_r. }
+  destruct (x =? marker).
+  { injection Hc as <- <-. cbn [sc_pending]. now rewrite app_nil_r. }
+  destruct S as [rx|].
+  - destruct (feed rx (sc_partials st) (sc_pending st) (x :: w')) as [[out ps] stopped] eqn:Ef.
+    destruct stopped.
+    + injection Hc as <- <-. discriminate Hst'.
+    + injection Hc as <- <-. cbn [sc_pending]. rewrite firstn_skipn.
+      exact (feed_no_stop _ _ _ _ _ _ Ef).
+  - injection Hc as <- <-. cbn [sc_pending]. now rewrite firstn_skipn.
+Qed.
+
+Lemma output_plus_pending_aux : forall tr stop_tokens S ts st,
+  sc_stopped st = false ->
+  sc_stopped (fold_left (fun s t => snd (sc_commit tr stop_tokens S s t)) ts st) = false ->
+  concat (sc_run tr stop_tokens S st ts) ++
+    sc_pending (fold_left (fun s t => snd (sc_commit tr stop_tokens S s t)) ts st)
+  = sc_pending st ++ concat (map (tok_text tr) ts).
+Proof.
+  intros tr stop_tokens S. induction ts as [|t ts IH]; intros st Hst Hfin;
+    cbn [sc_run fold_left map concat] in *.
+  - now rewrite app_nil_r.
+  - destruct (sc_commit tr stop_tokens S st t) as [o1 st1] eqn:Ec. cbn [snd] in *.
+    assert (Hst1 : sc_stopped st1 = false).
+    { destruct (sc_stopped st1) eqn:E; [|reflexivity].
+      rewrite (fold_stopped tr stop_tokens S ts st1 E) in Hfin. discriminate. }
+    cbn [concat]. rewrite <- app_assoc, (IH st1 Hst1 Hfin), app_assoc.
+    rewrite (sc_commit_text _ _ _ _ _ _ _ Hst Ec Hst1), <- app_assoc. reflexivity.
+Qed.
+
+(*FIXED*) (* while not stopped, nothing is lost or invented: what was returned plus what is
+   held back is the decoded text of the committed tokens *)
+Theorem output_plus_pending_is_text : forall tr stop_tokens S ts st o st',
+  sc_stopped st = false ->
+  (o, st') = (concat (sc_run tr stop_tokens S st ts),
+              fold_left (fun s t => snd (sc_commit tr stop_tokens S s t)) ts st) ->
+  sc_stopped st' = false ->
+  o ++ sc_pending st' = sc_pending st ++ concat (map (tok_text tr) ts).
+Proof.
+  intros tr stop_tokens S ts st o st' Hst Heq Hst'. injection Heq as -> ->.
+  now apply output_plus_pending_aux.
+Qed.
+
+(*FIXED*) (* a stop token ends the run with exactly the text before it *)
+Theorem stop_token_cut : forall tr stop_tokens S st t,
+  sc_stopped st = false -> existsb (N.eqb t) stop_tokens = true ->
+  sc_commit tr stop_tokens S st t = (sc_pending st, mk_sc true (sc_partials st) []).
+Proof.
+  intros tr stop_tokens S st t H1 H2. unfold sc_commit. rewrite H1, H2. reflexivity.
+Qed.
+
+(* ------------------------------------------------------------------ *)
+(* UTF-8 cut                                                            *)
+(* ------------------------------------------------------------------ *)
+
+Lemma last_start_le : forall l i, (last_start l i <= i)%nat.
+Proof.
+  induction l as [|b l IH]; intros i; destruct i as [|i]; cbn [last_start]; try lia.
+  destruct (is_cont b); [|lia]. specialize (IH i). lia.
+Qed.
+
+Lemma last_start_head : forall b l i, is_cont b = false -> last_start (b :: l) i = i.
+Proof. intros b l i H. destruct i as [|i]; cbn [last_start]; [reflexivity|]. now rewrite H. Qed.
+
+(*FIXED*) (* the UTF-8 cut never exceeds the data; complete ASCII data is returned whole *)
+Lemma valid_utf8_len_bounds : forall data,
+  (valid_utf8_len data <= length data)%nat /\
+  (Forall (fun b => b < 128) data -> valid_utf8_len data = length data).
+Proof.
+  intros data. destruct data as [|x data']; [split; reflexivity|].
+  unfold valid_utf8_len. cbv zeta. set (data := x :: data').
+  set (n := length data). set (i := last_start (rev data) (n - 1)).
+  assert (Hn : (0 < n)%nat) by (unfold n, data; cbn [length]; lia).
+  assert (Hi : (i <= n - 1)%nat) by apply last_start_le.
+  split.
+  - destruct (Nat.leb (i + char_len (nth i data 0)) n) eqn:E; [now apply Nat.leb_le in E|].
+    clearbody i n. lia.
+  - intros Hall. rewrite Forall_forall in Hall.
+    assert (Hieq : i = (n - 1)%nat).
+    { unfold i. destruct (rev data) as [|b rest] eqn:Er; [reflexivity|].
+      apply last_start_head.
+      assert (Hb : b < 128).
+      { apply Hall. apply (proj2 (in_rev data b)). rewrite Er. now left. }
+      unfold is_cont. apply N.leb_gt in Hb. now rewrite Hb. }
+    assert (Hc : char_len (nth i data 0) = 1%nat).
+    { unfold char_len.
+      assert (Hlt : nth i data 0 < 128) by (apply Hall, nth_In; fold n; lia).
+      apply N.ltb_lt in Hlt. now rewrite Hlt. }
+    rewrite Hc, Hieq. replace (n - 1 + 1)%nat with n by lia.
+    now rewrite Nat.leb_refl.
+Qed.
+
+Print Assumptions step_partials_ok_original_false.
+Print Assumptions nonempty_complete.
+Print Assumptions step_partials_ok.
+Print Assumptions step_partials_ok_simple.
+Print Assumptions step_partials_live.
+Print Assumptions completed_sound.
+Print Assumptions completed_complete.
+Print Assumptions silent_after_stop.
+Print Assumptions stopped_is_sticky.
+Print Assumptions output_plus_pending_is_text.
+Print Assumptions stop_token_cut.
+Print Assumptions valid_utf8_len_bounds.
